@@ -1359,9 +1359,15 @@ def _make_pianoroll(
         pr_idx_pitch_start = first_row
 
     if return_idxs:
-        # indices of each note in the piano roll
+        # indices of each note in the piano roll (in onset mode a note fills
+        # its onset frame only)
         pr_idx = np.column_stack(
-            [pr_pitch - pr_idx_pitch_start, pr_onset, pr_offset, note_info[idx, 0]]
+            [
+                pr_pitch - pr_idx_pitch_start,
+                pr_onset,
+                pr_onset + 1 if onset_only else pr_offset,
+                note_info[idx, 0],
+            ]
         ).astype(int)
         return pianoroll, pr_idx[idx.argsort()]
     else:
